@@ -44,6 +44,20 @@ Voicing == /\ IsEv("voicing") /\ VoicingLaw(Rec[l])
               ELSE /\ sweep # <<>> /\ Rec[l].thr_bits >= sweep[1] /\ Len(sweep[2]) = Len(Rec[l].nodata)
                    /\ \A t \in 1..Len(sweep[2]) : sweep[2][t] => Rec[l].nodata[t]
                    /\ sweep' = <<Rec[l].thr_bits, Rec[l].nodata>>
+\* voice sets: the voicing weight is the interpolated one.  k[v] = weights in 64ths, msdq[s][v] = per-voice weights x 2^20 (rounded),
+\* thrq = threshold x 2^20.  States whose interpolated weight is within the quantisation margin of the threshold are not judged.
+MixVoicingLaw(e) == LET F == Expand(e.dur, 1)
+                        nv == Len(e.k)
+                        RECURSIVE SumK(_,_)
+                        SumK(s, v) == IF v > nv THEN 0 ELSE e.k[v] * e.msdq[s][v] + SumK(s, v + 1)
+                        RECURSIVE AbsK(_)
+                        AbsK(v) == IF v > nv THEN 0 ELSE Abs(e.k[v]) + AbsK(v + 1)
+                        margin == AbsK(1) + 64 + 8
+                    IN /\ Len(e.nodata) = Len(F)
+                       /\ \A t \in 1..Len(F) : LET w == SumK(F[t], 1) IN
+                             /\ (w > 64 * e.thrq + margin => ~e.nodata[t])
+                             /\ (w < 64 * e.thrq - margin => e.nodata[t])
+MixVoicing == IsEv("mixvoicing") /\ MixVoicingLaw(Rec[l]) /\ UNCHANGED sweep
 \* other streams' trajectories do not move when one stream's threshold / GV weight changes (digests)
 Isolated == IsEv("isolated") /\ Rec[l].spectrum_equal /\ Rec[l].lpf_equal /\ UNCHANGED sweep
 
@@ -77,7 +91,7 @@ GvOff == IsEv("gvoff") /\ Rec[l].unaffected /\ UNCHANGED sweep
 \* ---- C17: corrupted label text is reported as an error (or still synthesizes), never a panic
 Corrupt == IsEv("corrupt") /\ Rec[l].outcome \in {"ok", "err"} /\ UNCHANGED sweep
 
-Next == Corrupt \/ Synth \/ Fuzz \/ Voicing \/ Isolated \/ HalfTone \/ Gain \/ Gv \/ GvNone \/ GvOff
+Next == Corrupt \/ Synth \/ Fuzz \/ MixVoicing \/ Voicing \/ Isolated \/ HalfTone \/ Gain \/ Gv \/ GvNone \/ GvOff
 Spec == Init /\ [][Next]_vars
 Accepted == IF TLCGet("stats").diameter - 1 = Len(Rec) THEN TRUE
             ELSE Print(<<"REJECT at", TLCGet("stats").diameter>>, FALSE)
